@@ -1,5 +1,32 @@
-use serde_json::Value;
+use serde_json::{json, Value};
+use std::collections::HashMap;
+use text_utils::tokenization::train_bpe;
+use text_utils::utils::SerializeMsgPack;
 
-pub fn dispatch(op: &str, _req: &Value) -> Result<Value, String> {
-    Err(format!("unknown op {op}"))
+pub fn dispatch(op: &str, req: &Value) -> Result<Value, String> {
+    match op {
+        "train_bpe" => {
+            let dir = std::path::PathBuf::from(std::env::var("VERIF_SCRATCH").unwrap_or("/var/tmp/verif-scratch".to_string()))
+                .join(format!("bpe-{}", std::process::id()));
+            std::fs::create_dir_all(&dir).map_err(|e| e.to_string())?;
+            let corpus = dir.join("corpus.txt");
+            let mut content = String::new();
+            for l in req["lines"].as_array().ok_or("lines")? {
+                content.push_str(l.as_str().unwrap());
+                content.push('\n');
+            }
+            std::fs::write(&corpus, content).map_err(|e| e.to_string())?;
+            let out = dir.join("merges.bin");
+            let r = train_bpe(&[corpus], req["vocab"].as_u64().ok_or("vocab")? as usize, req["nst"].as_u64().ok_or("nst")? as usize,
+                &out, None, None, req["threads"].as_u64().unwrap_or(1) as u8, false);
+            if let Err(e) = r {
+                let _ = std::fs::remove_dir_all(&dir);
+                return Err(e.to_string());
+            }
+            let table: HashMap<Vec<u8>, u32> = HashMap::load(&out).map_err(|e| e.to_string())?;
+            let _ = std::fs::remove_dir_all(&dir);
+            Ok(json!(table.into_iter().map(|(k, v)| json!([k, v])).collect::<Vec<_>>()))
+        }
+        _ => crate::ops16::dispatch(op, req),
+    }
 }
